@@ -132,7 +132,7 @@ func (w *vfWorld) now() time.Duration { return time.Since(w.epoch) }
 func (w *vfWorld) statePath(name string) string { return w.dir + "/" + name + ".state" }
 
 func (w *vfWorld) newRouter(name string) *Router {
-	r := NewRouter(w.statePath(name))
+	r := vfNewRouter(w.statePath(name))
 	w.mu.Lock()
 	w.routers = append(w.routers, r)
 	w.mu.Unlock()
@@ -308,12 +308,9 @@ func (w *vfWorld) close() {
 		func() {
 			defer func() { recover() }()
 			names := []string{}
-			r.withReadLock(func() error {
-				for n := range r.services.All() {
-					names = append(names, n)
-				}
-				return nil
-			})
+			for n := range vfList(r) { // through the command interface: no dependence on the router's internals
+				names = append(names, n)
+			}
 			for _, n := range names {
 				vfRemove(r, n)
 			}
